@@ -615,6 +615,7 @@ class SimTransport(selector_events._SelectorSocketTransport):
             w.fire("write_raises_sync")
             e = exc("unable to perform operation on closed transport; the handler is closed")
             e.sim_fault_id = w.new_id("F")  # type: ignore[attr-defined]  # an injected cause in its own right
+            w.rec("tr_write_raised", tr=self._tid, fd=self._sim_fd, fault=e.sim_fault_id)
             raise e
         super().write(data)
 
